@@ -83,6 +83,7 @@ pub fn registry() -> Vec<PartEntry> {
         part!("C18", containers::Standalone),
         part!("C18", free::StandaloneFree),
         part!("C19", alloc::C19Average),
+        part!("C19", avgfree::C19Free),
         part!("C20", life::C20Suspended),
     ]
 }
